@@ -63,7 +63,7 @@ def run(rep, tier, replay):
                                                         "xq_parse_err")]
     if tier == "thorough":
         xtab = shapes.EXPAND_THOROUGH_FIXED + [shapes.random_expand_shape(rng, i) for i in range(12)]
-    mbad = sched.mc_legs(rep, [("compress", ctab), ("expand", xtab)], pol, timeout=3000 if tier == "thorough" else 900)
+    mbad = sched.mc_legs(rep, [("compress", ctab), ("expand", xtab)], pol, timeout=1200 if tier == "thorough" else 900)
     for name, c, r in mbad:
         rep.sample({"model_counterexample": name, "violated": r.violated, "temporal": r.temporal, "shape": c})
     # ---- (V)
